@@ -98,7 +98,7 @@ def gen(seed, tier):
                 if a != ('v', 0):
                     ops.append(['PUSH', TM.J(a), TM.J(ground_term(rng, 1))])
             ops.append(['SAVE', ['v', 0]])
-    for _ in range(rng.randrange(0, 14)):
+    for _ in range(rng.randrange(0, 14 * (2 if tier == 'thorough' else 1))):
         k = rng.random()
         if k < 0.05:
             ops.append(['NEWVAR'])
